@@ -50,6 +50,7 @@ type AlphaCfg struct {
 	NoRootPtr   bool // leave "" out (legacy domain: no root add / copy from "")
 	EnsureLen   int  // >0: the alphabet is SigmaEnsure(EnsureLen, Values) instead
 	NoRootAdd   bool // drop add "" and copy from "" (not offered by the legacy package)
+	MaxFroms    int  // >0: at most this many resolvable move/copy sources (evenly spread), plus the misses and ghosts
 	RootOnly    bool // keep only operations whose path is "" (whole-document add / replace)
 	InteriorNeg bool // also address the children of a last array element through the token -1 (negative index as an interior token)
 }
@@ -173,6 +174,21 @@ func SigmaFrom(d *rj.Value, cfg *AlphaCfg, orig *rj.Value) []r69.Op {
 	if cfg.NoRootPtr {
 		all, res = all[1:], res[1:]
 	}
+	// ghost pointers: locations that existed in the document the sequence started from and no longer
+	// do (a stale node kept by the implementation would still answer them)
+	var ghosts []string
+	if orig != nil {
+		_, ores := pointers(orig, false)
+		for _, op := range ores {
+			if len(ghosts) >= 4 {
+				break
+			}
+			if _, ok := r69.Resolve(d, op.P, true); !ok {
+				all = append(all, ptrInfo{op.P, nil})
+				ghosts = append(ghosts, op.P)
+			}
+		}
+	}
 	want := func(k string) bool { return cfg.Kinds == nil || cfg.Kinds[k] }
 	vals := cfg.Values
 	if vals == nil {
@@ -226,7 +242,10 @@ func SigmaFrom(d *rj.Value, cfg *AlphaCfg, orig *rj.Value) []r69.Op {
 		}
 	}
 	froms := []string{}
-	for _, p := range res {
+	for i, p := range res {
+		if cfg.MaxFroms > 0 && len(res) > cfg.MaxFroms && i*cfg.MaxFroms/len(res) == (i-1)*cfg.MaxFroms/len(res) && i > 0 {
+			continue // an evenly spread sub-selection of the resolvable sources
+		}
 		froms = append(froms, p.P)
 	}
 	nmiss := 0
@@ -236,6 +255,7 @@ func SigmaFrom(d *rj.Value, cfg *AlphaCfg, orig *rj.Value) []r69.Op {
 			nmiss++
 		}
 	}
+	froms = append(froms, ghosts...)
 	for _, p := range all { // one negative source
 		if p.Node != nil && len(p.P) > 2 && p.P[len(p.P)-2:] == "-1" {
 			froms = append(froms, p.P)
